@@ -154,13 +154,32 @@ def toeplitz_case(draw, mode):
     return {'defs': [], 'expr': r, 'probe': draw(st.lists(st.integers(0, 1000), min_size=8, max_size=8))}
 
 
+@st.composite
+def block_container_case(draw, mode):
+    """Block operators whose container is a dict written in any key order (JAX flattens dicts in sorted key order, so
+    a round trip re-creates the container in another order than the one the user wrote), a list or a tuple."""
+    G = gen.GenCtx(mode, cap=12)
+    child = St.leaf([draw(st.integers(1, 3))], draw(st.sampled_from(gen.dtypes(mode))))
+    k = draw(st.integers(2, 3))
+    blocks = [gen.leaf_operand(draw, G, child, square=True, kind=draw(st.sampled_from(['diag', 'hom', 'dense', 'diag'])))
+              for _ in range(k)]
+    cont = draw(st.sampled_from(['dict', 'dict', 'dict', 'list', 'tuple']))
+    if cont == 'dict':
+        keys = list(draw(st.permutations(['a', 'b', 'c'])))[:k]
+        container = {'c': 'dict', 'items': [[key, b] for key, b in zip(keys, blocks)]}
+    else:
+        container = {'c': cont, 'items': blocks}
+    expr = {'k': 'block', 'kind': draw(st.sampled_from(['diag', 'diag', 'row', 'col'])), 'blocks': container}
+    return {'defs': G.defs, 'expr': expr, 'probe': draw(st.lists(st.integers(0, 1000), min_size=8, max_size=8))}
+
+
 def strategy(tier, mode):
     from .c08 import single_case
 
     return st.one_of(single_case(mode), single_case(mode), single_case(mode),
                      gen.expression_case(mode, cap=16, max_len=4, depth=2),
                      gen.expression_case(mode, cap=16, max_len=4, depth=2),
-                     landscape_case(mode), inverse_pair_case(mode), toeplitz_case(mode))
+                     landscape_case(mode), inverse_pair_case(mode), toeplitz_case(mode), block_container_case(mode))
 
 
 def _has_mask(r, defs):
@@ -281,6 +300,26 @@ def check(case, mode):
     y2 = must_not_raise('roundtrip-mv', op2.mv, x)
     _same(y0, y2, den, xf, eps, 'roundtrip')
     classes = []
+    # the dense form, where the operator has one: same matrix before and after the round trip and under jit
+    kinds0 = X.kinds_in(case['expr'], defs)
+    # (only where a hand-written dense form takes part; the generic one is the action itself applied to a basis)
+    if n <= 24 and any(k_ in kinds0 for k_ in ('block', 'diag', 'bdiag', 'toeplitz', 'move', 'hom')):
+        try:
+            m0 = np.asarray(op.as_matrix())
+        except Exception:  # noqa: BLE001  (no dense form for this operator: nothing to compare)
+            m0 = None
+        if m0 is not None:
+            m2 = np.asarray(must_not_raise('roundtrip-as_matrix', op2.as_matrix))
+            pairs_ = [('roundtrip-as_matrix', m2)]
+            if case['expr']['k'] == 'block' and p[1] % 2 == 0:
+                pairs_.append(('jit-as_matrix', np.asarray(must_not_raise('jit-as_matrix', lambda: jax.jit(lambda: op.as_matrix())()))))
+            scale = max(1.0, float(np.abs(m0).max(initial=0)))
+            for key_, m_ in pairs_:
+                if m_.shape != m0.shape or m_.dtype != m0.dtype:
+                    raise Violation(key_ + ':type', f'{m_.shape}:{m_.dtype} instead of {m0.shape}:{m0.dtype}')
+                if not np.allclose(m_, m0, rtol=0, atol=64 * eps * scale * max(1, n), equal_nan=True):
+                    raise Violation(key_ + ':value', f'as_matrix() differs: max abs difference {np.nanmax(np.abs(m_ - m0)):.3g}')
+            classes.append('as_matrix_compared')
     if _has_mask(case['expr'], defs):
         classes.append('filter_jit_skipped_boolean_mask')
     else:
